@@ -50,8 +50,9 @@ func c04Events(p c04Params) []string {
 	for i := 0; i < p.N; i++ {
 		ev = append(ev, fmt.Sprintf("flip-500:b%d", i))
 	}
-	// a backend that accepts and never answers in time: the failure arrives as a timeout error
-	ev = append(ev, "flip-timeout:b0")
+	// a backend that accepts and never answers in time: the failure arrives as a timeout error;
+	// and one whose 500 follows an interim response (103 Early Hints): a failed response all the same
+	ev = append(ev, "flip-timeout:b0", "flip-103+500:b0")
 	if vres.Thorough() {
 		ev = append(ev, "flip-refuse:b0", "flip-garbage:b0")
 	}
@@ -187,7 +188,7 @@ func (in *c04Inst) Step(ev int) *vh.HViol {
 		bad := e[len("flip-"):strings.Index(e, ":")]
 		st := in.k.stub(e[strings.Index(e, ":")+1:])
 		if st.mode == "ok" {
-			st.mode, st.probeMode = bad, bad
+			st.mode, st.probeMode = bad, strings.TrimPrefix(bad, "103+")
 		} else {
 			st.mode, st.probeMode = "ok", "ok"
 		}
